@@ -28,6 +28,8 @@ type Options struct {
 }
 
 // SchedPoint is one point of a recorded schedule: [choice, enabledMask, running, runningEnabled].
+// runningEnabled == 2 marks a DATA choice point (Exec.choose): enabledMask then has one bit per
+// alternative and choice is the alternative taken by thread `running`.
 type SchedPoint [4]int
 
 // Finding is one oracle failure class found during an exploration.
@@ -107,6 +109,11 @@ func runOnce(sc *Scenario, prefix []prefixEntry, branchSleep uint32, o *Options,
 		}
 	}()
 	env := sc.Setup()
+	if sc.Prefix != nil && only < 0 {
+		// sequential prefix: still single-threaded (setup mode), so whatever it leaves behind
+		// -- pooled objects, filled caches, lazily built globals -- happens-before every thread
+		sc.Prefix(env)
+	}
 	var fns []func() any
 	for i, f := range sc.Threads {
 		if only >= 0 && i != only {
@@ -198,7 +205,7 @@ func entriesOf(pts []pointRec) []prefixEntry {
 	out := make([]prefixEntry, len(pts))
 	for i := range pts {
 		p := &pts[i]
-		out[i] = prefixEntry{choice: p.choice, enabled: p.enabled, running: p.running, runningEnabled: p.runningEnabled}
+		out[i] = prefixEntry{data: p.data, choice: p.choice, enabled: p.enabled, running: p.running, runningEnabled: p.runningEnabled}
 	}
 	return out
 }
@@ -211,6 +218,9 @@ func scheduleOf(pts []pointRec) []SchedPoint {
 		if p.runningEnabled {
 			re = 1
 		}
+		if p.data {
+			re = 2
+		}
 		out[i] = SchedPoint{int(p.choice), int(p.enabled), int(p.running), re}
 	}
 	return out
@@ -219,7 +229,7 @@ func scheduleOf(pts []pointRec) []SchedPoint {
 func prefixOfSchedule(s []SchedPoint) []prefixEntry {
 	out := make([]prefixEntry, len(s))
 	for i, p := range s {
-		out[i] = prefixEntry{choice: uint8(p[0]), enabled: uint32(p[1]), running: int8(p[2]), runningEnabled: p[3] != 0}
+		out[i] = prefixEntry{data: p[3] == 2, choice: uint8(p[0]), enabled: uint32(p[1]), running: int8(p[2]), runningEnabled: p[3] != 0}
 	}
 	return out
 }
@@ -227,7 +237,7 @@ func prefixOfSchedule(s []SchedPoint) []prefixEntry {
 func preemptionsOf(pts []pointRec) int {
 	n := 0
 	for i := range pts {
-		if pts[i].runningEnabled && pts[i].chosen != pts[i].running {
+		if !pts[i].data && pts[i].runningEnabled && pts[i].chosen != pts[i].running {
 			n++
 		}
 	}
@@ -385,6 +395,28 @@ func (e *explorer) explore(prefix []prefixEntry, sleep uint32, level int) {
 	var buf [32]int8
 	for i := 0; i < limit; i++ {
 		p := &x.points[i]
+		if p.data {
+			// data choice of the running thread: every alternative is explored, at no preemption
+			// cost; the sleep set in force at the point carries over unchanged (the chooser is
+			// awake, and the threads asleep stay independent of what was executed so far)
+			if i >= len(prefix) {
+				for alt := 0; alt < p.nEnabled(); alt++ {
+					if alt == int(p.choice) {
+						continue
+					}
+					np := append(entriesOf(x.points[:i]), prefixEntry{data: true, choice: uint8(alt), enabled: p.enabled, running: p.running, runningEnabled: true})
+					var sl uint32
+					if e.o.Complete && !e.o.NoSleep {
+						sl = p.sleep
+					}
+					e.explore(np, sl, level+1)
+					if e.stop != "" {
+						return
+					}
+				}
+			}
+			continue
+		}
 		if i >= len(prefix) {
 			if ne := p.nEnabled(); ne > 1 {
 				if e.o.Complete {
@@ -435,7 +467,7 @@ func sameObservation(a, b *execOut) string {
 	}
 	for i := range a.x.points {
 		p, q := &a.x.points[i], &b.x.points[i]
-		if p.enabled != q.enabled || p.chosen != q.chosen || p.running != q.running {
+		if p.data != q.data || p.enabled != q.enabled || p.chosen != q.chosen || p.running != q.running {
 			return fmt.Sprintf("point %d differs", i)
 		}
 	}
